@@ -41,7 +41,7 @@ PROPERTY = "C03"
 LEVEL = "exploration"
 RULE = (
     "derivation trees: a generated root statement (Core select/compound/CTE/subquery, ORM select with loader options, INSERT/UPDATE/DELETE incl. "
-    "sqlite/postgresql ON CONFLICT inserts, legacy Query) and 1-25 program steps, each applied to a drawn *earlier* node: ~45 generative "
+    "sqlite/postgresql ON CONFLICT inserts, legacy Query) and 3-25 program steps, each applied to a drawn *earlier* node: ~45 generative "
     "methods, 7 clone kinds (copy.copy, _clone, cloned_traverse, replacement_traverse, params(), pickle, ext.serializer), compile on a drawn "
     "dialect and read-only attribute accesses; default dialect + 2 drawn of {sqlite, postgresql, mysql, mssql, oracle} per case. "
     "Non-trivial: some node has >=2 derived children and a collection-extending call (where/order_by/join/options/values/returning/...) ran on "
